@@ -297,6 +297,16 @@ class Scenario:
                 if w.expression != 'exception':
                     out.append((tag, 'tp %d captured %s, the invocation raised %s' % (tp_id, w.expression,
                                                                                          first[2])))
+                else:
+                    # the exception passed through the opening invocation's frame - did the invocation RAISE it, or
+                    # catch it and go on (a line of that frame runs after the exception event) and return normally?
+                    final = [r for r in ends if r[1] == 'return']
+                    caught = bool(final) and any(r.get('ev') == 'line' and r.get('frame') == frame_id
+                                                 and first[0] < r.get('seq', 0) < final[-1][0] for r in self.records)
+                    is_method = any(t['id'] == tp_id and t['kind'] == 'method' for t in self.all_model_tps)
+                    if caught and is_method:
+                        out.append(('result-caught', 'tp %d (method capture) recorded the exception %s as the result of an '
+                                    'invocation that caught it and returned %r' % (tp_id, first[2], final[-1][2])))
         return out
 
     def trace(self):
